@@ -2,7 +2,7 @@ SPECIFICATION MCSpec
 CONSTANTS
   C = 2
   MaxParts = 3
-  Amts = {1, 2, 3}
+  Amts = {1, 2}
   Tots = {4}
   Secs = {"ok"}
   Cls = {"far"}
@@ -13,7 +13,7 @@ CONSTANTS
   MaxTicks = 1
   MaxBlocks = 1
   MaxDev = 0
-  MaxOps = 6
+  MaxOps = 5
   StaleClaim = FALSE
   Flds = {"none", "o1", "o1b", "o2", "e1", "e1b", "e2", "e1o1", "e1e2", "o1o2", "o1e2"}
   Sks = {"no"}
@@ -21,7 +21,7 @@ CONSTANTS
   RegMeta = 0
   ClaimKinds = {"claim", "claimk"}
   Bug = "none"
-  EmitMod = 1
+  EmitMod = 3
 CONSTRAINT Bound
 VIEW View
 INVARIANT AllOrNothing
